@@ -66,6 +66,18 @@ theorem peerUfrag_safe (data : Array UInt8) (b : Buf) :
   intro r n' hr hs
   cur_auto
 
+theorem verifyMi_safe (bytes : Array UInt8) (b : Buf) :
+    safe (· ≤ bytes.size + 20) (verifyMi bytes) (fun _ _ n' => n' ≤ bytes.size + 20) b 0 := by
+  unfold verifyMi
+  apply safe_loop (fun s _ n' => 20 ≤ s ∧ n' = 0) (fun s _ => bytes.size + 4 - s)
+  · intro s b' n' hinv
+    obtain ⟨h1, h2⟩ := hinv
+    subst h2
+    unfold verifyMiBody
+    cur_auto
+  · exact ⟨by omega, rfl⟩
+  · omega
+
 theorem handlePacketClass_safe {B : Nat} (packet : Array UInt8) {Q b n} (hn : n ≤ B)
     (h : ∀ r, Q r b n) : safe (· ≤ B) (handlePacketClass packet) Q b n := by
   unfold handlePacketClass
